@@ -2,19 +2,14 @@ package main
 
 import (
 	"fmt"
-	"os"
-	"strings"
 
 	"verifmc/scen"
 )
 
 func main() {
-	hist := strings.Split(os.Args[1], " ; ")
-	for run := 0; run < 20; run++ {
-		vs := scen.DebugRun(os.Args[2], hist)
-		fmt.Println(run, len(vs))
-		for _, v := range vs {
-			fmt.Println("   ", v.Signature, v.Detail)
-		}
+	out, vs := scen.RunPubSubRawDebug()
+	fmt.Println(out, len(vs))
+	for _, v := range vs {
+		fmt.Println(v.Signature, v.Detail)
 	}
 }
